@@ -9,6 +9,7 @@ mod c04;
 mod c05;
 mod c06;
 mod c07;
+mod c15;
 mod c19;
 mod report;
 mod rng;
@@ -24,7 +25,7 @@ use serde_json::{json, Value};
 use std::time::Instant;
 
 fn scenarios() -> Vec<&'static dyn Scenario> {
-    vec![&c05::C05, &c04::C04, &c06::C06, &c07::C07, &c19::C19, &vmscript::Script]
+    vec![&c05::C05, &c04::C04, &c06::C06, &c07::C07, &c19::C19, &c15::THREADS_C15, &c15::THREADS_C16, &vmscript::Script]
 }
 
 fn scenario_by_name(name: &str) -> &'static dyn Scenario {
@@ -125,6 +126,8 @@ fn cmd_check(args: &[String]) -> i32 {
     let mut per_scenario = Vec::new();
     let mut violations_out: Vec<Value> = Vec::new();
     let mut known_out: Vec<Value> = Vec::new();
+    let mut other_out: Vec<Value> = Vec::new();
+    let mut minimised = 0usize;
     let mut rules = Vec::new();
     let mut assumptions: Vec<String> = Vec::new();
     let mut components = Vec::new();
@@ -157,6 +160,15 @@ fn cmd_check(args: &[String]) -> i32 {
         }
         for (sig, list) in agg.violations.iter() {
             let count = agg.violation_counts.get(sig).copied().unwrap_or(0);
+            // a scenario shared by two properties reports each violation under
+            // the property it belongs to; the sibling's findings are listed in
+            // the evidence but decided by the sibling's check
+            let sig_prop = sig.split('/').next().unwrap_or("");
+            if sig_prop != property && sig_prop.len() >= 3 && sig_prop.starts_with('C') && sig_prop[1..].chars().all(|c| c.is_ascii_digit()) {
+                println!("note: {} run(s) ended with a finding that belongs to {} ({})", count, sig_prop, sig);
+                other_out.push(json!({"signature": sig, "runs": count}));
+                continue;
+            }
             if let Some(k) = known.find(&property, sig) {
                 println!("KNOWN-FINDING: property={} {} [{}; seen in {} run(s), e.g. seed={} run={}]",
                     property, k.2, sig, count, list[0]["seed"], list[0]["run"]);
@@ -164,7 +176,13 @@ fn cmd_check(args: &[String]) -> i32 {
                 continue;
             }
             let effort = if thorough { 400 } else { 150 };
-            let (spec, res) = runner::minimise(*scn, &list[0], thorough, effort);
+            minimised += 1;
+            let (spec, res) = if minimised <= 6 {
+                runner::minimise(*scn, &list[0], thorough, effort)
+            } else {
+                // many different violations: report the rest unminimised
+                runner::minimise(*scn, &list[0], thorough, 0)
+            };
             let path = runner::write_replay(*scn, &spec, &res);
             println!("VIOLATION property={} replay={}", property, path);
             println!("  signature: {}  ({} run(s))", sig, count);
@@ -216,6 +234,7 @@ fn cmd_check(args: &[String]) -> i32 {
             "components": components,
             "runs_per_hour": if wall > 0.0 { (total.runs as f64 / wall * 3600.0) as u64 } else { 0 },
             "known_findings_seen": known_out,
+            "findings_of_sibling_properties": other_out,
             "violations": violations_out,
             "harness_errors": total.harness_error_count,
             "exhaustive": false,
